@@ -7,6 +7,7 @@ import (
 	"os/exec"
 	"path/filepath"
 	"runtime"
+	"sort"
 	"strings"
 	"sync"
 	"testing"
@@ -199,7 +200,7 @@ func TestPropWeb(t *testing.T) {
 // ---- facet tools: one ObjFile, many concurrent SourceLine calls; tool configuration changed meanwhile ----
 
 type toolCase struct {
-	Tool    int // 0 addr2line, 1 llvm-symbolizer, 2 llvm-symbolizer that dies after 3 answers, 3 nm only (fast)
+	Tool    int // 0 addr2line, 1 llvm-symbolizer, 2 llvm-symbolizer that dies after 3 answers, 3 nm only (fast), 4 nm only, and nm fails
 	N       int
 	Addrs   []uint64
 	Reconf  int // number of concurrent SetTools/SetFastSymbolization calls on the same Binutils
@@ -207,12 +208,12 @@ type toolCase struct {
 }
 
 func genTool(t *rapid.T) *toolCase {
-	return &toolCase{Tool: rapid.IntRange(0, 3).Draw(t, "tool"), N: rapid.IntRange(2, 10).Draw(t, "n"), Addrs: rapid.SliceOfN(rapid.Uint64Range(0, 0xfff), 10, 10).Draw(t, "addrs"),
+	return &toolCase{Tool: rapid.IntRange(0, 4).Draw(t, "tool"), N: rapid.IntRange(2, 10).Draw(t, "n"), Addrs: rapid.SliceOfN(rapid.Uint64Range(0, 0xfff), 10, 10).Draw(t, "addrs"),
 		Reconf: rapid.IntRange(0, 3).Draw(t, "reconf"), OpenToo: rapid.Bool().Draw(t, "opentoo")}
 }
 
 var toolOnce sync.Once
-var toolDirs [4]string
+var toolDirs [6]string
 var elfPath string
 
 func setupTools() {
@@ -233,6 +234,9 @@ func setupTools() {
 		toolDirs[i] = filepath.Join(base, fmt.Sprint(i))
 		write(toolDirs[i], "nm", nm)
 	}
+	write(toolDirs[4], "nm", "#!/bin/sh\nexit 1\n")
+	// objdump is probed by SetTools ("objdump --version"); a slow one widens the window of an update
+	write(toolDirs[5], "objdump", "#!/bin/sh\n/bin/sleep 0.03\necho 'GNU objdump (GNU Binutils) 2.40'\n")
 	write(toolDirs[0], "addr2line", a2l)
 	write(toolDirs[1], "llvm-symbolizer", llvm)
 	write(toolDirs[2], "llvm-symbolizer", dying)
@@ -267,7 +271,7 @@ func checkTool(c *toolCase, o *vk.Obs) []string {
 	bu := &binutils.Binutils{}
 	cfg := "nm:" + toolDirs[c.Tool] + ",addr2line:" + toolDirs[c.Tool] + ",llvm-symbolizer:" + toolDirs[c.Tool] + ",objdump:/nonexistent"
 	bu.SetTools(cfg)
-	if c.Tool == 3 {
+	if c.Tool >= 3 {
 		bu.SetFastSymbolization(true)
 	}
 	const bias = 0x555555554000
@@ -275,7 +279,7 @@ func checkTool(c *toolCase, o *vk.Obs) []string {
 	if err != nil {
 		return []string{"Open: " + err.Error()}
 	}
-	o.Label([]string{"addr2line", "llvm-symbolizer", "llvm-symbolizer-dies", "nm"}[c.Tool])
+	o.Label([]string{"addr2line", "llvm-symbolizer", "llvm-symbolizer-dies", "nm", "nm-fails"}[c.Tool])
 	o.NonTrivial = true
 	var wg sync.WaitGroup
 	var mu sync.Mutex
@@ -323,7 +327,7 @@ func checkTool(c *toolCase, o *vk.Obs) []string {
 			if i%2 == 0 {
 				bu.SetTools(cfg)
 			} else {
-				bu.SetFastSymbolization(c.Tool == 3)
+				bu.SetFastSymbolization(c.Tool >= 3)
 			}
 			if c.OpenToo {
 				if f, err := bu.Open(elfPath, bias, bias+0x1000, 0, ""); err == nil {
@@ -342,7 +346,10 @@ func checkTool(c *toolCase, o *vk.Obs) []string {
 		return []string{fmt.Sprintf("deadlock: %d concurrent SourceLine calls on one object file did not return within 30s (tool %d)", c.N, c.Tool)}
 	}
 	of.Close()
-	if c.Tool != 2 && failed > 0 {
+	if c.Tool == 4 && answered > 0 {
+		e.Addf("%d lookups were answered although nm fails", answered)
+	}
+	if c.Tool != 2 && c.Tool != 4 && failed > 0 {
 		e.Addf("%d of %d lookups failed although the tool answers every request", failed, answered+failed)
 	}
 	return e
@@ -350,7 +357,126 @@ func checkTool(c *toolCase, o *vk.Obs) []string {
 
 func TestPropTools(t *testing.T) {
 	vk.Main(t, vk.Spec[toolCase]{ID: "C20", Facet: "tools", Quick: 250, Thorough: 1500, Gen: genTool, Check: checkTool, Journal: true, CaseTimeout: 90 * time.Second,
-		Rule: "2..10 goroutines x 3 SourceLine calls on ONE object file opened through binutils, backed by fake addr2line / llvm-symbolizer / nm scripts that echo the queried address (one variant of the tool dies after three answers), while other goroutines call SetTools / SetFastSymbolization / Open on the same Binutils; under the race detector; oracle: no data race, no deadlock (30 s), every answer carries the address that was asked; every case is non-trivial"})
+		Rule: "2..10 goroutines x 3 SourceLine calls on ONE object file opened through binutils, backed by fake addr2line / llvm-symbolizer / nm scripts that echo the queried address (one variant of the tool dies after three answers, one nm fails outright), while other goroutines call SetTools / SetFastSymbolization / Open on the same Binutils; under the race detector; oracle: no data race, no deadlock (30 s), every answer carries the address that was asked; every case is non-trivial"})
+}
+
+// ---- facet config: tool options set from several goroutines at once ----
+
+type cfgCase struct {
+	Ops    []int // 0 SetTools(A), 1 SetTools(B), 2 fast=true, 3 fast=false
+	Reads  int
+	Jitter []int
+}
+
+func genCfg(t *rapid.T) *cfgCase {
+	return &cfgCase{Ops: rapid.SliceOfN(rapid.IntRange(0, 3), 2, 4).Draw(t, "ops"), Reads: rapid.IntRange(0, 4).Draw(t, "reads"), Jitter: rapid.SliceOfN(rapid.IntRange(0, 3), 8, 8).Draw(t, "jitter")}
+}
+
+func checkCfg(c *cfgCase, o *vk.Obs) []string {
+	var e vk.Errs
+	toolOnce.Do(setupTools)
+	cfgOf := func(i int) string {
+		return "nm:" + toolDirs[3] + ",addr2line:" + toolDirs[i] + ",llvm-symbolizer:/nonexistent,objdump:" + toolDirs[5]
+	}
+	apply := func(bu *binutils.Binutils, op int) {
+		switch op {
+		case 0:
+			bu.SetTools(cfgOf(0))
+		case 1:
+			bu.SetTools(cfgOf(1))
+		case 2:
+			bu.SetFastSymbolization(true)
+		default:
+			bu.SetFastSymbolization(false)
+		}
+	}
+	// what the options are after the same calls one at a time: the tools of the last SetTools and the last
+	// fast flag in SOME order of the calls - i.e. any tools value that was set and any fast value that was set
+	tools, fasts := map[string]bool{}, map[string]bool{}
+	for _, op := range c.Ops {
+		ref := &binutils.Binutils{}
+		ref.SetTools(cfgOf(0))
+		ref.SetFastSymbolization(false)
+		apply(ref, op)
+		st := ref.String()
+		i := strings.LastIndex(st, "fast=")
+		if op < 2 {
+			tools[st[:i]] = true
+		} else {
+			fasts[st[i:]] = true
+		}
+	}
+	base := &binutils.Binutils{}
+	base.SetTools(cfgOf(0))
+	base.SetFastSymbolization(false)
+	bst := base.String()
+	bi := strings.LastIndex(bst, "fast=")
+	if len(tools) == 0 {
+		tools[bst[:bi]] = true
+	}
+	if len(fasts) == 0 {
+		fasts[bst[bi:]] = true
+	}
+	bu := &binutils.Binutils{}
+	bu.SetTools(cfgOf(0))
+	bu.SetFastSymbolization(false)
+	var wg sync.WaitGroup
+	start := make(chan struct{})
+	for i, op := range c.Ops {
+		wg.Add(1)
+		go func(i, op int) {
+			defer wg.Done()
+			<-start
+			for k := 0; k < c.Jitter[i%len(c.Jitter)]; k++ {
+				runtime.Gosched()
+			}
+			apply(bu, op)
+		}(i, op)
+	}
+	for i := 0; i < c.Reads; i++ {
+		wg.Add(1)
+		go func() {
+			defer wg.Done()
+			<-start
+			_ = bu.String()
+			if f, err := bu.Open(elfPath, 0x555555554000, 0x555555555000, 0, ""); err == nil {
+				f.Close()
+			}
+		}()
+	}
+	close(start)
+	done := make(chan struct{})
+	go func() { wg.Wait(); close(done) }()
+	select {
+	case <-done:
+	case <-time.After(60 * time.Second):
+		return []string{"deadlock: concurrent SetTools / SetFastSymbolization did not return within 60s"}
+	}
+	st := bu.String()
+	i := strings.LastIndex(st, "fast=")
+	kinds := map[bool]bool{}
+	for _, op := range c.Ops {
+		kinds[op < 2] = true
+	}
+	o.NonTrivial = len(kinds) == 2
+	if !tools[st[:i]] || !fasts[st[i:]] {
+		e.Addf("after concurrent option updates %v the tool options are %q: not the outcome of any order of those calls (an update was lost); possible tools %v, possible fast %v", c.Ops, st, keysOf(tools), keysOf(fasts))
+	}
+	return e
+}
+
+func keysOf(m map[string]bool) []string {
+	var out []string
+	for k := range m {
+		out = append(out, k)
+	}
+	sort.Strings(out)
+	return out
+}
+
+func TestPropConfig(t *testing.T) {
+	vk.Main(t, vk.Spec[cfgCase]{ID: "C20", Facet: "config", Quick: 60, Thorough: 400, Gen: genCfg, Check: checkCfg, Journal: true, CaseTimeout: 120 * time.Second,
+		Rule: "2..4 calls of SetTools (two tool directories; the objdump probe takes 30 ms) and SetFastSymbolization (true/false) on one Binutils released together, with 0..4 concurrent readers (String, Open); under the race detector; oracle: no data race, no deadlock, and the final options are those of some sequential order of the calls - the tools of one of the SetTools calls AND the flag of one of the SetFastSymbolization calls (no update is lost); non-trivial = both kinds of setter take part"})
 }
 
 // ---- facet fetch: parallel fetch through one shared object tool ----
